@@ -166,10 +166,12 @@ void noise_main()
 {
   for (int i = 0; i < 20000; ++i)
   {
-    if (g_noise_cmd.load())
+    while (g_noise_cmd.load())
     {
+      // re-assert "parked" on every round: a resume immediately followed by a new park request must
+      // not be missed
       g_noise_parked.store(1);
-      while (g_noise_cmd.load()) usleep(100);
+      usleep(100);
     }
     log_one(9);
     usleep(150);
